@@ -450,6 +450,9 @@ def run(rep):
             pt = g.DataPoint(**kw)
             r = dict(H=real(lambda: mobj.ReH(pt)), E=real(lambda: mobj.ReE(pt)), Ht=real(lambda: mobj.ReHt(pt)),
                      Et=real(lambda: mobj.ReEt(pt)))
+            if common.private(rep, DC, '_ReV', 'gk-wiring stream skipped (real parts are compared with PV integrals of the imaginary parts through the public ReH.. as before)') is None \
+                    or common.private(rep, DC, '_ReA', 'gk-wiring stream skipped') is None:
+                break
             w = dict(H=real(lambda: DC._ReV(mobj, pt, mobj.ImH, -1)), E=real(lambda: DC._ReV(mobj, pt, mobj.ImE, +1)),
                      Ht=real(lambda: DC._ReA(mobj, pt, mobj.ImHt)),
                      Et=real(lambda: mobj.ReEtpole(pt) + DC._ReA(mobj, pt, mobj.ImEt)))
